@@ -489,6 +489,10 @@ func RPCReadSector(ctx context.Context, t TransportClient, prices rhp4.HostPrice
 	}
 	if err := req.Validate(t.PeerKey()); err != nil {
 		return RPCReadSectorResult{}, clientErr("invalid request", err)
+	} else if offset%rhp4.LeafSize != 0 || length%rhp4.LeafSize != 0 {
+		// the proof covers whole leaves: for a range that does not start and
+		// end on a leaf boundary the verified data is not the requested data
+		return RPCReadSectorResult{}, clientErrf("offset and length must be multiples of %d bytes", rhp4.LeafSize)
 	}
 
 	s, err := openStream(ctx, t, defaultStreamTimeout)
